@@ -2,6 +2,7 @@ import ApolloModel.Proofs.LineColumn
 import ApolloModel.Proofs.ParserLossless
 import ApolloModel.Proofs.TreeRanges2
 import ApolloModel.Model.TreeRanges
+import ApolloModel.Proofs.FromCst
 /-
 C11 — Source locations and line/column positions are correct.
 
@@ -167,5 +168,38 @@ example : (parse .document none 500 multibyteWitness).dropped = false ∧
   decide +kernel
 
 end Tree
+
+section Ast
+/-! ### the AST half: Names produced by the CST → AST conversion (Model/FromCst.lean, stream `c08.fromcst`) -/
+open Apollo.Rowan Apollo.Parse Apollo.FromCst
+
+/-- every Name location reported by `fromCst root` is the (start, length, text) of a NAME node of `root`
+    (`SourceSpan::new(file_id, name.syntax())`) — the conversion cannot report anything else: by typing -/
+theorem ast_name_locations_are_name_nodes (root : Elem) :
+    ∀ l ∈ (fromCst root).2, l.val ∈ nameRanges root 0 := fromCst_locs_are_name_nodes root
+
+/-- AST NAME LOCATION EXACT: for every parsed document (no token limit, nothing dropped) and every Name of the
+    AST that `fromCst` builds from the parse tree, the source bytes under the Name's location are exactly the
+    text of the NAME node it came from. -/
+theorem ast_name_location_exact (rl : Nat) (src : Parse.Str) (root : Elem)
+    (h : (parse .document none rl src).outcome = .tree root)
+    (hd : (parse .document none rl src).dropped = false) :
+    ∀ l ∈ (fromCst root).2, sliceBytes src l.val.1 l.val.2.1 = some l.val.2.2 :=
+  fun l _ => parsed_name_ranges_exact rl src root h hd l.val l.property
+
+/-- … and the Name's own text is the text of the first token of that NAME node; when the node is one IDENT
+    token (what `name()` and ty.rs build) the Name IS the located text. -/
+theorem ast_name_text {R : List Loc} (p : PE R) (t : Ast.Str) (ls : Locs R) (hc : cName p = some (t, ls)) :
+    ∃ cs s, p.1 = (.node "NAME" cs, s) ∧ (∃ k, firstTokList cs = some (k, t)) ∧ isValidName t = true ∧
+      ls.map (·.val) = [(s, bytes (textList cs), textList cs)] := cName_spec p t ls hc
+
+theorem ast_name_of_ident {R : List Loc} (k : SK) (d : Rowan.Str) (s : Nat)
+    (hp : ∀ x ∈ nameRanges (.node "NAME" [.tok k d]) s, x ∈ R) (hv : isValidName d = true) :
+    ∃ l : LocIn R, cName ⟨(.node "NAME" [.tok k d], s), hp⟩ = some (d, [l]) ∧ l.val = (s, bytes d, d) :=
+  cName_ident k d s hp hv
+
+-- `#é⏎{a}`: the AST has one Name, `a`, located at bytes 5..6
+example : ((fromCst (rootOf (parse .document none 500 multibyteWitness))).2.map (·.val)) = [(5, 1, ['a'])] := by decide +kernel
+end Ast
 
 end Apollo.C11
